@@ -96,6 +96,10 @@ def make_index(kind, n):
         return pd.date_range("2021-03-01", periods=n, freq="D")
     if kind == "period":
         return pd.period_range("2020-01", periods=n, freq="M")
+    if kind == "datetime_ties":
+        # monotonic but NOT unique: tied timestamps (event data at coarse resolution)
+        base = pd.date_range("2022-05-01", periods=(n + 2) // 3 + 1, freq="s")
+        return pd.DatetimeIndex(np.repeat(base.values, 3)[:n])
     raise KeyError(kind)
 
 
